@@ -326,7 +326,7 @@ fn run_case(rep: &mut Report, case: u64) {
     world.register::<Tag>();
     // pre-seed: some live entities and a free list with 0..3 entries (few keys, many threads)
     let n0 = rng.range(0, 5);
-    let nfree = rng.range(0, 3);
+    let nfree = if cfg.prop == "C17" { rng.range(1, 24) } else { rng.range(0, 3) };
     let mut initial: Vec<Entity> = world.create_iter().take(n0 + nfree).collect();
     let mut stale: Vec<Entity> = Vec::new();
     for _ in 0..nfree {
@@ -350,6 +350,8 @@ fn run_case(rep: &mut Report, case: u64) {
         trace::push(hist.last().unwrap());
         let mut records: Vec<Vec<Rec>> = Vec::new();
         let sched_trace: Vec<(u16, u16)>;
+        let snap0 = world.entities().verif_snapshot();
+        let (free_at_start, max_id_at_start) = (snap0.cache.len(), snap0.max_id);
         if controlled {
             let sched = Arc::new(Sched::new(nthreads, Rng(rng.next()), [1u32, 2, 3, 6][rng.below(4)]));
             *SCHED.lock().unwrap() = Some(sched.clone());
@@ -479,6 +481,23 @@ fn run_case(rep: &mut Report, case: u64) {
                     return Err(("C10", format!("two entities that are not yet dead share index {}: {:?} and {:?}", e.id(), o, e)));
                 }
             }
+            // C17 under concurrency: a never-used index may only be taken once the free list is exhausted,
+            // so exactly min(#creations, #free entries at the start) creations must have recycled an index
+            let recycled = created.iter().filter(|e| (e.id() as usize) < max_id_at_start).count();
+            let want = created.len().min(free_at_start);
+            if recycled != want {
+                return Err((
+                    "C17",
+                    format!(
+                        "{} concurrent creations with {} free-list entries available recycled only {} indices: a never-used index was taken while a dead one was still free (new indices {:?})",
+                        created.len(),
+                        free_at_start,
+                        recycled,
+                        created.iter().map(|e| e.id()).filter(|i| (*i as usize) >= max_id_at_start).take(8).collect::<Vec<_>>()
+                    ),
+                ));
+            }
+            rep.bump("concurrent_recycling_checks", 1);
             let all_possible: BTreeSet<Entity> = initial.iter().chain(created.iter()).cloned().collect();
             for (got, must) in &joins {
                 let gs: BTreeSet<Entity> = got.iter().cloned().collect();
